@@ -112,6 +112,8 @@ class Sandbox:
         self._backup_variables = {}
         # Modules
         self._module_overrides = {}
+        # The globals that `_mock_builtins` itself bound in the student's namespace
+        self._replaced_globals = {}
         self.modules = SandboxModules()
         self.clear_mocks()
         self.clear_data()
@@ -587,16 +589,23 @@ class Sandbox:
 
     def _mock_builtins(self, data: dict, builtins: dict):
         builtins = builtins
+        # The replacements are also bound as globals of the namespace. In the
+        # student's namespace, a name that their own code has since bound to
+        # something else (a function of theirs called ``compile`` or ``exit``)
+        # is theirs to keep across executions.
+        if data is self.data:
+            bound_here = self._replaced_globals
+        else:
+            bound_here = {}
         for name, value in builtins.items():
             if value is True:
-                data['__builtins__'][name] = mocked.ORIGINAL_BUILTINS[name]
-                data[name] = mocked.ORIGINAL_BUILTINS[name]
+                value = mocked.ORIGINAL_BUILTINS[name]
             elif value is False:
-                data['__builtins__'][name] = mocked.disabled_builtin(name)
-                data[name] = mocked.disabled_builtin(name)
-            else:
-                data['__builtins__'][name] = value
+                value = mocked.disabled_builtin(name)
+            data['__builtins__'][name] = value
+            if name not in data or data[name] is bound_here.get(name):
                 data[name] = value
+                bound_here[name] = value
 
     def _start_mocking(self, context: SandboxContext):
         """ Mock input, output, builtins, and modules """
